@@ -41,6 +41,17 @@ def valid(intervals):
 def check_case(intervals, probes):
     """intervals: list of (start, end) in insertion order (distinct). Returns None or (mechanism, summary)."""
     from windpyutils.structures.maps import ImmutIntervalMap
+    comp = ImmutIntervalMap({(1000, 1001): "companion-b", (990, 995): "companion-a"})   # a second, independent map
+    bad = _check_case(intervals, probes)
+    if bad is None:
+        g = outcome(lambda: (list(comp), len(comp), comp[1000.5], comp[990], 997 in comp, 2 in comp))
+        if g != ("ok", ([((990, 995), "companion-a"), ((1000, 1001), "companion-b")], 2, "companion-b", "companion-a", False, False)):
+            return "other-instance-disturbed", f"a second map {{(990,995),(1000,1001)}} built before and untouched during the case answers {g}"
+    return bad
+
+
+def _check_case(intervals, probes):
+    from windpyutils.structures.maps import ImmutIntervalMap
     # values include None and other falsy objects: membership is about the key, never about the value
     vals = [None, 0, "", False, (), 0.0]
     mapping = {iv: (f"v{i}" if (i + len(intervals)) % 3 else vals[i % len(vals)]) for i, iv in enumerate(intervals)}
@@ -85,6 +96,7 @@ def check_case(intervals, probes):
             hits = [1] if hits else []      # membership: the key lies in an interval, whatever its value is
             use_in = rng.random() < 0.3
             history.append(k)
+            k = common.fresh(k)         # an equal number, not the identical object
             if not use_in:
                 g = outcome(lambda: m[k])
                 if g != want:
